@@ -67,7 +67,9 @@ CONFIRMED = {('Chitchat', 'assert:Overflow(Sub)'): 1, ('[u8; N]', 'call:consume'
 
 
 def owner_of(fx, fid):
-    root = fx.fns[fx.root_fn(fid)]
+    # a helper the pinned tree does not have belongs to the (single) known function that calls it
+    owners = sorted(fx.attributed(fid)) if hasattr(fx, "attributed") else [fx.root_fn(fid)]
+    root = fx.fns[owners[0] if owners else fx.root_fn(fid)]
     o = root.get("impl_self")
     if o:
         return o
@@ -136,7 +138,7 @@ def r09_inventory(ctx, rep, roles, P="C09", ent=None, rule_id="R09.1", extra_tab
 
     def fn_rows(fid):
         if fid not in tables_cache:
-            eng = sym.Engine(fx, inline_only=set())
+            eng = sym.Engine(fx, inline_only=set(getattr(fx, "new_helpers", ())))
             try:
                 tables_cache[fid] = (eng, eng.table(fid))
             except sym.Unanalysable:
